@@ -40,6 +40,7 @@ func c12Run(t *testing.T, r *vfRand, nPeers, nActions int) (steps []c12Step, sel
 	proto := protocol.ID("/verif/kad/1.0.0")
 	ids := make([]peer.ID, nPeers)
 	fails := make(map[peer.ID]bool) // current behaviour: requests to the peer fail
+	hangs := make(map[peer.ID]bool) // current behaviour: the peer accepts the liveness probe and never answers it
 	for i := range ids {
 		ids[i] = simPeerID(r)
 	}
@@ -52,6 +53,10 @@ func c12Run(t *testing.T, r *vfRand, nPeers, nActions int) (steps []c12Step, sel
 		return false
 	}
 	node.sender.reply = func(call *simCall) (*pb.Message, error) {
+		if hangs[call.p] && call.origin == "ping" {
+			<-call.ctx.Done() // the probe's own timeout ends it
+			return nil, call.ctx.Err()
+		}
 		if fails[call.p] {
 			return nil, fmt.Errorf("sim: request failed")
 		}
@@ -86,7 +91,7 @@ func c12Run(t *testing.T, r *vfRand, nPeers, nActions int) (steps []c12Step, sel
 			}
 			call := pend[r.Intn(len(pend))]
 			cancelled := call.ctx.Err() != nil
-			failed := fails[call.p] || cancelled
+			failed := fails[call.p] || cancelled || (hangs[call.p] && call.origin == "ping")
 			switch call.origin {
 			case "ping":
 				if failed {
@@ -135,7 +140,11 @@ func c12Run(t *testing.T, r *vfRand, nPeers, nActions int) (steps []c12Step, sel
 		case x < 55: // behaviour flips
 			cur.action = "flip"
 			p := ids[r.Intn(len(ids))]
-			fails[p] = !fails[p]
+			if r.Chance(35) {
+				hangs[p] = !hangs[p]
+			} else {
+				fails[p] = !fails[p]
+			}
 		case x < 88: // a lookup, possibly cancelled half way
 			cur.action = "lookup"
 			if len(d.routingTable.ListPeers()) == 0 {
